@@ -100,8 +100,11 @@ def run(seed_ids, checks, tier):
                 print(f"{sid} {c} {tier}: {verdict} {kinds[:3]}")
         finally:
             shutil.rmtree(d)
+        with open(os.path.join(dst, "meta.json")) as f:
+            cur = json.load(f)          # merge: another run may have updated the file meanwhile
+        cur.setdefault("caught_by", {}).update(meta["caught_by"])
         with open(os.path.join(dst, "meta.json"), "w") as f:
-            json.dump(meta, f, indent=1)
+            json.dump(cur, f, indent=1)
     # evidence files were rewritten against scratch trees: they are regenerated by the next real run
 
 
@@ -122,7 +125,7 @@ def main():
             ids.append(args[i])
             i += 1
     if not ids:
-        ids = sorted(os.listdir(SEEDED))
+        ids = sorted(d for d in os.listdir(SEEDED) if os.path.isdir(os.path.join(SEEDED, d)))
     run(ids, checks, tier)
 
 
